@@ -12,6 +12,7 @@ import DTML.Sort
 import DTML.Stats
 import DTML.TreeCodec
 import DTML.TreeState
+import DTML.Scan
 open Lean DTML
 
 namespace Driver
@@ -224,6 +225,21 @@ def opTree (j : Json) : Except String Json := do
     out := out.push (treeSnapshot root st)
   return Json.arr out
 
+def jText (t : List Char) : Json := Json.str (String.ofList t)
+
+def jTok (t : Scan.Tok) : Json :=
+  Json.arr #[jText t.text, Json.bool t.isEnd, jText t.name, jText t.args, jText t.fmt]
+
+def parseSyntax (s : String) : Scan.Syntax := if s = "epfs" then .epfs else .html
+
+/-- op "tokens": the tokeniser (repeated tagre.search) -/
+def opTokens (j : Json) : Except String Json := do
+  let src ← getStr j "src"
+  let syn := parseSyntax (← getStr j "syntax")
+  let (ps, tl) := Scan.tokens syn src.toList
+  return Json.mkObj [("toks", Json.arr (ps.map fun (l, t) => Json.arr #[jText l, jTok t]).toArray),
+    ("tail", jText tl)]
+
 def handle (j : Json) : Except String Json := do
   let op ← getStr j "op"
   match op with
@@ -237,6 +253,7 @@ def handle (j : Json) : Except String Json := do
   | "stats" => opStats j
   | "b64" => opB64 j
   | "tree" => opTree j
+  | "tokens" => opTokens j
   | "ping" => return Json.str "pong"
   | _ => throw s!"unknown op {op}"
 
